@@ -180,6 +180,7 @@ func vfC07(c *hx.Ctx) {
 		"byte-identical with exact length and zero padding, nothing else ever. Non-trivial = sequences in which a recovery is due.")
 	vfC07Session(c)
 	vfC07Tuned(c)
+	vfC07Huge(c)
 	ratios := [][2]int{{1, 1}, {1, 2}, {2, 1}, {2, 2}, {3, 1}, {3, 2}, {3, 3}, {4, 2}, {5, 3}, {10, 3}}
 	if !c.Quick() {
 		ratios = append(ratios, [2]int{6, 2}, [2]int{4, 4})
@@ -395,6 +396,132 @@ func vfC07(c *hx.Ctx) {
 	}
 }
 
+// vfC07Huge: groups of MORE than 64 packets (the decoder accepts up to 256): every subset is out of reach, so the losses
+// are every burst of L consecutive packets (L in {1, 2, p-1, p}) at every position of the group, everything else arriving
+// in ascending, descending and parity-first order, at the start of the id space, at the wrap value and for a fresh decoder
+// in the upper half. Same oracle as the small groups (exactly the missing data packets, byte-exact, when the d-th distinct
+// packet arrives; nothing that is not an original).
+func vfC07Huge(c *hx.Ctx) {
+	ratios := [][2]int{{60, 10}, {62, 3}, {64, 8}, {100, 28}}
+	if !c.Quick() {
+		ratios = append(ratios, [2]int{200, 55}, [2]int{128, 127}, [2]int{65, 1})
+	}
+	idx := 0
+	for _, dp := range ratios {
+		d, p := dp[0], dp[1]
+		n := d + p
+		size := uint32(n)
+		paws := uint32(0xffffffff) / size * size
+		for _, bs := range []struct {
+			b     uint32
+			fresh bool
+		}{{0, true}, {paws - size, false}, {(1<<31)/size*size + size, true}} {
+			idx++
+			if c.Of > 1 && idx%c.Of != c.Shard {
+				continue
+			}
+			name := fmt.Sprintf("arrivals-large-group/d=%d,p=%d/base=%#x/fresh=%v", d, p, bs.b, bs.fresh)
+			if c.Skip(name) {
+				continue
+			}
+			start := time.Now()
+			sizes := []int{1, 40, 7, 90}
+			cf := vfC07Cfg{d: d, p: p, base: bs.b, fresh: bs.fresh, sizes: sizes}
+			var pre []vfFecPkt
+			stream := vfFecStream(d, p, bs.b, 2, sizes)
+			if !bs.fresh {
+				all := vfFecStreamGap(d, p, uint32((uint64(bs.b)+uint64(paws)-2*uint64(size))%uint64(paws)), 4, sizes, -1)
+				pre, stream = all[:2*n], all[2*n:]
+			}
+			alphabet := append(append([]vfFecPkt{}, stream[:n]...), stream[n], stream[n+d])
+			g0 := stream[0].group
+			for i := range alphabet {
+				alphabet[i].group -= g0
+			}
+			for i := range stream {
+				stream[i].group -= g0
+			}
+			bursts := map[int]bool{1: true, 2: true, p - 1: true, p: true}
+			u := &hx.Unit{Name: name, Kind: "enum", Exhaustive: true, Params: map[string]any{"d": d, "p": p, "base": bs.b, "fresh_decoder": bs.fresh, "payload_sizes": sizes,
+				"losses": "every burst of L consecutive packets, L in {1,2,p-1,p}, at every position", "orders": "ascending, descending, parity first"}}
+			stop := false
+			for L := 1; L <= p && !stop; L++ {
+				if !bursts[L] {
+					continue
+				}
+				for at := 0; at+L <= n && !stop; at++ {
+					if time.Now().After(c.Deadline) {
+						u.Exhaustive, u.CapHit = false, "internal deadline"
+						stop = true
+						break
+					}
+					var asc []int
+					for i := 0; i < n; i++ {
+						if i < at || i >= at+L {
+							asc = append(asc, i)
+						}
+					}
+					for order := 0; order < 3; order++ {
+						var seq []int
+						switch order {
+						case 0:
+							seq = append(seq, asc...)
+						case 1:
+							for i := len(asc) - 1; i >= 0; i-- {
+								seq = append(seq, asc[i])
+							}
+						case 2:
+							for _, x := range asc {
+								if x >= d {
+									seq = append(seq, x)
+								}
+							}
+							for _, x := range asc {
+								if x < d {
+									seq = append(seq, x)
+								}
+							}
+						}
+						u.Executions++
+						u.NonTrivial++
+						sig, msg := func() (sig, msg string) {
+							defer func() {
+								if r := recover(); r != nil {
+									sig, msg = "C07:decoder-panic:"+vfPanicSiteOf(), fmt.Sprintf("the decoder panicked: %v", r)
+								}
+							}()
+							return vfC07Seq(cf, pre, alphabet, stream, seq)
+						}()
+						if sig != "" {
+							sig += ":group-of-more-than-64-packets"
+							found := false
+							for _, v := range u.Violations {
+								if v.Signature == sig {
+									v.Count++
+									found = true
+								}
+							}
+							if !found {
+								u.Violations = append(u.Violations, c.NewViolation(name, u.Params, sig, msg, fmt.Sprintf("packets %d..%d of the group lost, arrival order %d", at, at+L-1, order)))
+							}
+							if len(u.Violations) >= 3 {
+								stop = true
+							}
+						}
+					}
+				}
+			}
+			u.Samples = append(u.Samples, map[string]any{"lost": "packets 10..19", "order": "descending"})
+			if len(u.Violations) > 0 {
+				u.Exhaustive = false
+			}
+			u.EndStatesN = u.Executions
+			u.WallS = time.Since(start).Seconds()
+			c.AddUnit(u)
+		}
+	}
+}
+
 // vfC07Tuned: the receiver was configured with another ratio and adopted the sender's by auto-tuning during a loss-free
 // warm-up; then every arriving subset of the focus group (ascending and descending order, plus two packets of the next
 // group) — at the wrap value, just before it, at 2^31 and in the middle of the id space.
@@ -595,6 +722,90 @@ func vfC16(c *hx.Ctx) {
 		u.WallS = time.Since(start).Seconds()
 		c.AddUnit(u)
 	}
+	// (a') losses in EVERY group after convergence, up to and beyond the sender's id wrap: the stream starts so that the
+	// decoder has converged a few groups before the sender wraps its ids (the decoder's own wrap value must then be the
+	// sender's, not one derived from its former shard size)
+	{
+		start := time.Now()
+		u := &hx.Unit{Name: "recovery-across-the-wrap-after-convergence", Kind: "enum", Exhaustive: true, Params: map[string]any{"pairs": len(pairs), "start": "so that convergence completes 3..4 groups before the sender's id wrap",
+			"losses": "one data packet (position rotating) in every complete group from convergence to 4 groups past the wrap"}}
+		for pi, pr := range pairs {
+			if c.Of > 1 && pi%c.Of != c.Shard {
+				continue
+			}
+			size := uint32(pr.d + pr.p)
+			if size > 20 && c.Quick() && pi%3 != 0 {
+				continue
+			}
+			paws := uint32(0xffffffff) / size * size
+			bound := 258 + 2*(pr.d+pr.p)
+			// measure how long convergence takes from a group start, then place the start accordingly
+			n0, _, _ := vfC16ConvergeFrom(pr.d, pr.p, pr.rd, pr.rp, 0, 0, bound+int(size))
+			if n0 < 0 {
+				continue // reported by the convergence unit
+			}
+			groupsToConverge := uint32(n0)/size + 1
+			base := paws - (groupsToConverge+4)*size
+			u.Executions++
+			u.NonTrivial++
+			dec := newFECDecoder(pr.rd, pr.rp)
+			stream := vfFecStream(pr.d, pr.p, base, int(groupsToConverge)+10, []int{40, 3, 900})
+			i := 0
+			for ; i < len(stream); i++ {
+				for _, r := range dec.decode(fecPacket(stream[i].raw)) {
+					defaultBufferPool.Put(r)
+				}
+				if dec.dataShards == pr.d && dec.parityShards == pr.p && !dec.shouldTune {
+					i++
+					break
+				}
+			}
+			rest := stream[i:]
+			for len(rest) > 0 && rest[0].pos != 0 {
+				for _, r := range dec.decode(fecPacket(rest[0].raw)) {
+					defaultBufferPool.Put(r)
+				}
+				rest = rest[1:]
+			}
+			g := 0
+			for len(rest) >= int(size) {
+				grp := rest[:size]
+				rest = rest[size:]
+				lostPos := g % pr.d
+				g++
+				got := false
+				for k, pk := range grp {
+					if k == lostPos {
+						continue
+					}
+					for _, r := range dec.decode(fecPacket(pk.raw)) {
+						if pos, _ := vfCheckRecovered(r, map[int][]byte{lostPos: grp[lostPos].original()}); pos == lostPos {
+							got = true
+						}
+						defaultBufferPool.Put(r)
+					}
+				}
+				if !got {
+					sig := "C16:no-recovery-after-convergence:near-the-sender's-id-wrap"
+					dupe := false
+					for _, v := range u.Violations {
+						dupe = dupe || v.Signature == sig
+					}
+					if !dupe && len(u.Violations) < 4 {
+						u.Violations = append(u.Violations, c.NewViolation("recovery-across-the-wrap-after-convergence", u.Params, sig,
+							fmt.Sprintf("decoder %d/%d converged to %d/%d; in the group with first id %d (the sender wraps at %d; the decoder's wrap value is %d) a single lost data packet was not recovered",
+								pr.rd, pr.rp, pr.d, pr.p, grp[0].seqid, paws, dec.paws), ""))
+					}
+					break
+				}
+			}
+		}
+		u.EndStatesN = u.Executions
+		u.Exhaustive = len(u.Violations) == 0
+		u.WallS = time.Since(start).Seconds()
+		c.AddUnit(u)
+	}
+	vfC16SessionConverge(c)
 	// (b) stability under faults with equal ratios
 	hx.NoCache = true
 	c.ByUnit = true
